@@ -46,3 +46,11 @@ add("C07", "other",
     "Bounded SMT: each summation generator is run for an enumerated configuration (n / weight vector / basis spelling / endianness / host kind) and z3 decides the bit-vector identity sum(out_i*2^level_i) = sum(in_j*2^w_j) (a + b*2^shift for the adders) for all operand values, operands being cut points in the host; fresh-gates-only, basis, gate-count bounds, distinct levels, unchanged old gates are checked per instance.",
     "Trusted: CPython, z3, proxies. Bounded: bit count n<=32; weighted sums n<=40, weights<=8 (exhaustive n<=4,w<=3 thorough); adders widths<=10 all shifts 0..n+3, spot 16..64. n=64 bit count outside.",
     "bounded SMT (bit-vector identity over real evaluator terms with cut points)", "DESIGN.md §3 C07")
+add("C08", "other",
+    "Bounded SMT: each multiplication/squaring mode is run for enumerated (n,m), endianness and host kind and z3 decides out == bvmul(a,b) (and that the product fits the documented n+m / 2n bits) for all operand values; the Karatsuba recursion and the squarer split are decided on threshold-shrunk twins recompiled from the current source (only the guard literals rewritten).",
+    "Trusted: CPython, z3, proxies. Bounded: quick <=5x5 + diagonal 7x7, thorough <=8x8 + 9x9; squares n<=14/20; twins widths<=8/12. True-width recursion (n>=20, n==18, squares n>=48) and the guards themselves outside.",
+    "bounded SMT (out == bvmul over real evaluator terms); threshold-shrunk twins", "DESIGN.md §3 C08")
+add("C09", "other",
+    "Bounded SMT: subtraction/borrow, div-mod (with the b=0 convention), integer sqrt bounds, equality with every constant, plus-one, if-then-else and pairwise gadgets are run for enumerated widths/options/hosts and z3 decides each bit-vector specification for all operand values; outputs marked iff asked, fresh gates only, old gates unchanged per instance.",
+    "Trusted: CPython, z3, proxies. Bounded: sub<=10 bits (+spot 128), div_mod n<=9/12, sqrt n<=16/24, equality n<=6/8, plus_one <=6/10. Negative constants and width 0 outside.",
+    "bounded SMT (bit-vector specifications over real evaluator terms)", "DESIGN.md §3 C09")
